@@ -344,7 +344,9 @@ PROPS = {
             'MF.Props.C08.fuel_irrelevant',
             'MF.Props.C08.ex_parse',
             'MF.Props.C08.ex_typeD'],
-        "channels": ['TREE', 'TYPE'],
+        "channels": ['TREE', 'TYPE', 'EXPR'],
+        "channel_accepts": {"TYPE": "MF.Props.C08.type_sound_top: an accepted token list is a derivation of the documented type grammar G_T",
+                            "EXPR": "MF.Props.C07.top_sound: an accepted token list is the yield of a tree grouped by the GoogleSQL operator table"},
         "pred": True,
         "level": 'proof',
         "trusted_base": ['hand-written model MF/Model/TypeParse.lean of parser.go '
